@@ -18,7 +18,7 @@ theorem groupsWF_of_plain (ts : List Task) (h : ∀ t ∈ ts, t.subtaskOf = none
   intro t ht b hb
   rw [h t ht] at hb; cases hb
 
-theorem generate_groupsWF (fn : Name) (r : Result) (ts : List Task) (htidy : resultTidy fn r = true)
+theorem generate_groupsWF (fn : Name) (r : Result) (ts : List Task) (htidy : resultPlain r = true)
     (h : generate fn r = .ok ts) : GroupsWF ts := by
   cases r with
   | none => simp [generate] at h; subst h; exact groupsWF_of_plain _ (by simp)
@@ -28,7 +28,7 @@ theorem generate_groupsWF (fn : Name) (r : Result) (ts : List Task) (htidy : res
     apply groupsWF_of_plain
     intro t' ht'
     simp at ht'; subst ht'
-    simp only [resultTidy, plainTask, Bool.and_eq_true, Option.isNone_iff_eq_none] at htidy
+    simp only [resultPlain, plainTask, Bool.and_eq_true, Option.isNone_iff_eq_none] at htidy
     exact htidy.1
   | dict d =>
     simp only [generate] at h
@@ -44,7 +44,7 @@ theorem generate_groupsWF (fn : Name) (r : Result) (ts : List Task) (htidy : res
       · simp at hd
       · exact (dictToTask_plain _ t' hd).1
   | gen items =>
-    simp only [resultTidy, Bool.and_eq_true] at htidy
+    simp only [resultPlain] at htidy
     simp only [generate] at h
     split at h
     · simp at h
@@ -58,7 +58,7 @@ theorem generate_groupsWF (fn : Name) (r : Result) (ts : List Task) (htidy : res
         exact (groupTask_ok fn [] t' hg).2.2.1
     · rename_i tasks hy
       cases h
-      obtain ⟨seen', hinv⟩ := yieldAll_inv fn _ inv_nil htidy.1 htidy.2 hy
+      obtain ⟨seen', hinv⟩ := yieldAll_inv fn _ inv_nil htidy hy
       exact inv_groupsWF hinv
 
 theorem subsIn_append (b : Name) (s F : List Task) : subsIn b (s ++ F) = subsIn b s ++ subsIn b F := by
@@ -98,7 +98,7 @@ theorem groupsWF_append (s F : List Task) (hs : GroupsWF s) (hF : GroupsWF F)
     exact hsub
 
 theorem generateAll_groupsWF (cmds : List Name) (cs : List Creator) (ts : List Task)
-    (htidy : ∀ c ∈ cs, resultTidy c.name c.result = true) (h : generateAll cmds cs = .ok ts)
+    (htidy : ∀ c ∈ cs, resultPlain c.result = true) (h : generateAll cmds cs = .ok ts)
     (hnd : (ts.map (·.name)).Nodup) : GroupsWF ts := by
   induction cs generalizing ts with
   | nil => simp [generateAll] at h; subst h; exact groupsWF_of_plain _ (by simp)
